@@ -134,8 +134,14 @@ M: List[Tuple[str, str, str, str, str]] = [
      "                self.port = 443 if self._url.port is None else self._url.port",
      "                self.port = (443 if self._url.hostname[:1] != b'[' else 80) if self._url.port is None else self._url.port"),
     ('c14-port-int-lenient', 'C14', 'proxy/http/url.py',
-     "            return username, password, COLON.join(parts[:-1]), int(parts[-1])",
-     "            return username, password, COLON.join(parts[:-1]), int(parts[-1]) if parts[-1].isdigit() else None"),
+     "int(parts[-1]) if parts[-1] else None", "int(parts[-1]) if parts[-1].isdigit() else None"),
+    ('c14-revert-empty-port-v4', 'C14', 'proxy/http/url.py',
+     "int(parts[-1]) if parts[-1] else None", "int(parts[-1])"),
+    ('c14-revert-empty-port-v6', 'C14', 'proxy/http/url.py',
+     "int(last_token[-1]) if last_token[-1] else None", "int(last_token[-1])"),
+    ('c14-path-slashes-collapsed', 'C14', 'proxy/http/url.py',
+     "            if remainder and not remainder.startswith(SLASH):\n                remainder = SLASH + remainder",
+     "            if remainder:\n                remainder = SLASH + remainder.lstrip(SLASH)"),
     # ---- C13 ---------------------------------------------------------------
     ('c13-prefix-without-separator', 'C13', 'proxy/http/server/web.py',
      "not target.startswith(root.rstrip(os.sep) + os.sep)", "not target.startswith(root)"),
